@@ -921,3 +921,64 @@ Qed.
 Example clone_hypothesis_satisfiable :
   let h := fst (new_message empty_heap demo_msg 2) in wfp h 0 /\ content_of h 0 = demo_msg.
 Proof. cbv zeta. split; [|vm_compute; reflexivity]. unfold wfp. vm_compute. repeat split; lia. Qed.
+
+(* ---------- the copy discipline does not depend on the load ---------- *)
+
+(* how many asynchronous handlers have been started by ServeAsync.Serve and have not even been entered *)
+Definition pending_count (st : state) : nat :=
+  length (filter (fun ag => match a_pend ag with Some _ => true | None => false end) (st_agents st)).
+
+(* After ANY history — any number of handlers dispatched and not yet entered, entered and never
+   returned, returned with retained pointers — ServeAsync.Serve by a holder that may act
+   (a) creates a new holder whose message has the dispatcher's content,
+   (b) in an object and a payload array distinct from those of every existing holder, the dispatcher included,
+   (c) leaves every existing holder's view as it was, and
+   (d) returns without waiting for any handler: the dispatcher may act again at once. *)
+Lemma async_any_load muxes sched a ag hid extra :
+  let st := run muxes sched in
+  acting st a = Some ag ->
+  let st' := step muxes clone st (SAsync a hid extra) in
+  let k := length (st_agents st) in
+  exists q,
+    nth_error (st_agents st') k = Some (mkAgent q (Some (st_nd st, hid))) /\
+    length (st_agents st') = S k /\ pending_count st' = S (pending_count st) /\
+    content_of (st_h st') q = content_of (st_h st) (a_ptr ag) /\
+    (forall j agj, nth_error (st_agents st) j = Some agj ->
+        q <> a_ptr agj /\ buf_of (st_h st') q <> buf_of (st_h st') (a_ptr agj) /\
+        view_of (st_h st') (a_ptr agj) = view_of (st_h st) (a_ptr agj)) /\
+    acting st' a = Some ag.
+Proof.
+  intros st Act st' k.
+  pose proof (run_inv muxes sched) as I. fold st in I.
+  pose proof (step_inv muxes st (SAsync a hid extra) I) as I'. fold st' in I'.
+  pose proof Act as Act0. apply acting_spec in Act as (Ha & Hp & Hb).
+  unfold st' in *. cbn [step] in *. rewrite Act0 in *.
+  destruct (clone_spec (st_h st) (a_ptr ag) extra) as (A & B & C & D & _ & F).
+  destruct (clone (st_h st) (a_ptr ag) extra) as [h1 q]. cbn [fst snd] in *.
+  cbn [st_agents st_h st_frames] in *.
+  exists q. split; [|split; [|split; [|split; [|split]]]].
+  - rewrite nth_error_app2, Nat.sub_diag by lia. reflexivity.
+  - rewrite app_length. cbn. lia.
+  - unfold pending_count. cbn [st_agents]. rewrite filter_app, app_length. cbn. lia.
+  - exact F.
+  - intros j agj Hj.
+    assert (Lj : j < length (st_agents st)) by (apply nth_error_Some; congruence).
+    pose proof (inv_sep _ I' k j q (a_ptr agj)) as S. unfold ptrs in S. cbn [st_agents st_h] in S.
+    destruct S as [S1 S2].
+    + rewrite map_app, nth_error_app2 by (rewrite map_length; lia). rewrite map_length, Nat.sub_diag. reflexivity.
+    + rewrite map_app, nth_error_app1 by (rewrite map_length; lia). now apply map_nth_error.
+    + unfold k. lia.
+    + split; [exact S1|]. split; [exact S2|].
+      destruct B as (_ & _ & B). apply B. apply (inv_wf st I), ptrs_in, (nth_error_In _ _ Hj).
+  - unfold acting. cbn [st_agents]. rewrite (nth_app_keep _ _ _ _ Ha), Hp.
+    unfold busy in *. cbn [st_frames]. rewrite Hb. reflexivity.
+Qed.
+
+(* not vacuous: a history with 200 handlers dispatched and none entered; one more dispatch *)
+Example async_any_load_not_vacuous :
+  let sched := SNew demo_msg 0 :: repeat (SAsync 0 1 0) 200 in
+  let st := run [] sched in
+  pending_count st = 200 /\ is_some (acting st 0) = true /\
+  agent_view (step [] clone st (SAsync 0 2 3)) 201 =
+    Some (mkV [97]%N 7%N 1%N true false [1; 2; 3; 0; 0; 0]%N 3).
+Proof. cbv zeta. repeat split; vm_compute; reflexivity. Qed.
